@@ -435,7 +435,7 @@ def rule_align(chk, cls):
     # who may write the count: only the places that count the Local tags (or define the state from scratch).  Anything else that assigns it asserts an alignment
     # it has not established (an array whose default tag is not Local, tags changed through a view ...)
     OWNERS = {'__init__': 'a new, empty array', '__setstate__': 'counted from the pickled tags', 'set_num_real_particles': 'the explicit setter (parallel manager)',
-              'align_particles': 'counts the Local tags', 'add_property': 'first particles of an empty array: counted from the given tags'}
+              'align_particles': 'counts the Local tags', 'add_property': 'first particles of an empty array: counted from the given tags, or decided by the default tag (rule below)'}
     wr = sorted(set(name for name, f_ in meths.items() for a in ast.walk(f_) if isinstance(a, (ast.Assign, ast.AugAssign))
                     and any(U(t) == 'self.num_real_particles' for t in (a.targets if isinstance(a, ast.Assign) else [a.target]))))
     extra = [w for w in wr if w not in OWNERS]
@@ -443,6 +443,41 @@ def rule_align(chk, cls):
                detail_bad='%s assigns self.num_real_particles itself instead of calling align_particles(): the count is right only if every particle counted is tagged Local and sits in '
                           'front - which that method has not established (default tag other than Local, tags changed through the numpy view)' % ', '.join(extra),
                detail_ok='written in %s' % ', '.join(wr))
+    # add_property, first particles of an empty array: the particles get the given tags, or - when another property brings them - the array's default tag, which need not be
+    # Local (ParticleArray(default_particle_tag=...)): the count is either counted from the given tags, or the number of particles under the test that the default tag is Local,
+    # or 0 under its negation
+    ap = meths.get('add_property')
+    if ap is None:
+        raise AnalysisError('ParticleArray.add_property vanished')
+    M.set_parents(ap)
+    n_ap = 0
+    for a in ast.walk(ap):
+        if not (isinstance(a, ast.Assign) and any(U(t) == 'self.num_real_particles' for t in a.targets)):
+            continue
+        n_ap += 1
+        v = a.value
+        counted = any(isinstance(c_, ast.Compare) and any(U(x_).split('.')[-1] == 'Local' for x_ in [c_.left] + list(c_.comparators)) for c_ in ast.walk(v))
+        pol = None
+        node = a
+        while node is not ap:
+            par = node.parent
+            if isinstance(par, ast.If):
+                t_ = U(par.test).replace(' ', '').replace('"', "'")
+                side = True if node in par.body else (False if node in par.orelse else None)
+                if side is not None and "default_values['tag']" in t_ and 'Local' in t_ and isinstance(par.test, ast.Compare) and len(par.test.ops) == 1:
+                    eq = isinstance(par.test.ops[0], ast.Eq)
+                    ne = isinstance(par.test.ops[0], ast.NotEq)
+                    if eq or ne:
+                        pol = side if eq else (not side)
+            node = par
+        zero = isinstance(v, ast.Constant) and v.value == 0
+        ok = counted or (zero and pol is False) or (not zero and pol is True)
+        chk.decide(ok, 'align-after-count-change', 'add_property:real-count@%d' % n_ap, node=a, file=PA, func='add_property',
+                   detail_bad='`%s` for the first particles of an empty array: they carry the array\'s default tag, which is Local only by default '
+                              '(ParticleArray(default_particle_tag=Ghost)); the count must be counted from the tags, or be the number of particles only where the default tag is '
+                              'known to be Local (0 otherwise)' % U(a),
+                   detail_ok='counted from the tags' if counted else 'decided by the default tag')
+    chk.floor('assignments of the real count in add_property', n_ap, 2)
     # (that the count is the number of Local tags is decided per path of the fill loop by the shared alignment rule below)
     # one index array for all properties
     cs = [c for c in M.calls(fn) if isinstance(c.func, ast.Attribute) and c.func.attr == 'c_align_array']
